@@ -94,9 +94,11 @@ class C11(Prop):
                 # how far (in units of the smaller buffers) the smaller result sticks out of the larger one
                 sc_small = shapely.transform(s_out, lambda x: x / [tb, fb])
                 sc_large = shapely.transform(s2, lambda x: x / [tb, fb])
-                inter = sc_small.intersection(sc_large.buffer(0))
+                # the larger result is thickened by 1e-6 units first: with a zero buffer on one axis both results are slivers
+                # one ulp thick (at 5 MHz: 1e-9 is below the spacing of doubles), whose plain intersection is numerically empty
+                inter = sc_small.intersection(sc_large.buffer(1e-6))
                 out["mono_excess_area"] = float(shapely.hausdorff_distance(sc_small, inter)) if not inter.is_empty else float("inf")
-                out["mono_covers"] = out["mono_excess_area"] < 1e-6
+                out["mono_covers"] = out["mono_excess_area"] < 2e-6
         else:
             out["mono_err"] = [r2[1], r2[2]]
         return out
